@@ -51,6 +51,10 @@ func genAny(g *OGen, r *Rng, signal int) any { return genAnyN(g, r, signal, 1+r.
 
 func genAnyN(g *OGen, r *Rng, signal int, maxItems int) any {
 	sh := TShape{MaxRes: 2, MaxScopes: 2, MaxSpans: maxItems}
+	if r.Chance(20) {
+		// several resources and scopes in one batch: identical ones come back after different ones (A, B, A)
+		sh.MaxRes, sh.MaxScopes = 5, 4
+	}
 	switch signal {
 	case 0:
 		return g.Traces(sh)
